@@ -138,6 +138,16 @@ impl Container {
             return Ok(None);
         }
         let cache_slot = &self.packs[pack_id.into_usize()];
+        #[cfg(jubako_verif)]
+        crate::verif::point(if cache_slot.get().is_none() {
+            crate::verif::Event::PackSlotMiss {
+                id: pack_id.into_u16(),
+            }
+        } else {
+            crate::verif::Event::PackSlotHit {
+                id: pack_id.into_u16(),
+            }
+        });
         if cache_slot.get().is_none() {
             match self._get_pack(pack_id)? {
                 None => return Ok(None),
